@@ -92,3 +92,33 @@ impl SubscriptionSender {
         ensures r is Ok <==> offer_accepted(*self, msg),
     { unimplemented!() }
 }
+
+// ---- String-keyed tables (notification handlers): key model and borrowed-key lookups (ASSUMED; vstd ships them only for K == Q)
+#[verifier::external_body]
+pub broadcast proof fn axiom_string_key_model()
+    ensures #[trigger] vstd::std_specs::hash::obeys_key_model::<String>(),
+{}
+#[verifier::external_body]
+pub broadcast proof fn axiom_string_ext(a: String, b: String)
+    ensures (#[trigger] a@ == #[trigger] b@) <==> a == b,
+{}
+#[verifier::external_body]
+pub broadcast proof fn axiom_contains_string_key<V>(m: Map<String, V>, k: &str)
+    ensures #[trigger] vstd::std_specs::hash::contains_borrowed_key::<String, V, str>(m, k) <==> (exists|key: String| key@ == k@ && m.contains_key(key)),
+{}
+#[verifier::external_body]
+pub broadcast proof fn axiom_removed_string_key<V>(old: Map<String, V>, new: Map<String, V>, k: &str)
+    ensures #[trigger] vstd::std_specs::hash::borrowed_key_removed::<String, V, str>(old, new, k)
+        <==> (forall|key: String| #![trigger new.contains_key(key)] (new.contains_key(key) <==> (old.contains_key(key) && key@ != k@)) && (new.contains_key(key) ==> new[key] == old[key])),
+{}
+pub broadcast group group_string_keys { axiom_string_key_model, axiom_string_ext, axiom_contains_string_key, axiom_removed_string_key }
+// Cow<str> helpers (rule D23: `c.to_string()` / deref of a `Cow<str>` are routed through these)
+#[verifier::external_body]
+pub fn cow_to_string<'a>(c: &Cow<'a, str>) -> (r: String) ensures r@ == cow_str_view(*c) { unimplemented!() }
+#[verifier::external_body]
+pub fn cow_as_str<'a, 'b>(c: &'b Cow<'a, str>) -> (r: &'b str) ensures r@ == cow_str_view(*c) { unimplemented!() }
+pub uninterp spec fn cow_str_view<'a>(c: Cow<'a, str>) -> Seq<char>;
+// the payload used for a notification without params (`Option::unwrap_or_default` on Box<RawValue>)
+pub uninterp spec fn default_raw() -> Box<RawValue>;
+#[verifier::external_body]
+pub fn raw_or_default(o: Option<Box<RawValue>>) -> (r: Box<RawValue>) ensures r == (match o { Some(b) => b, None => default_raw() }) { unimplemented!() }
